@@ -8,7 +8,7 @@ import json, os, re
 from ..core import callee_of, callee_names, is_call_to, unwrap, receiver_root, dominating_edges, fold
 from ..ranges import canon
 from ..families import describe, guard_flow, awaited_guard_start, bodies_of_fn
-from ..wire import success_sequences, prim_of, _val
+from ..wire import success_sequences, correlated_sequences, prim_of, _val
 
 CONN = 'edp_client::connection::Connection::'
 CM = 'edp_client::control::ControlMessage'
@@ -509,7 +509,7 @@ def run(ctx):
             if any(n.endswith('AsyncWriteExt::flush') for n in callee_names(t)):
                 return [('flush', None, describe(B_, canon(B_, t['args'][0])))]
             return []
-        seqs, _ = success_sequences(B, ev)
+        seqs, _ = correlated_sequences(B, ev)
         # the same sequences with the raw operands (for the symbolic check of sequences the textual classification does not know)
         def ev_raw(B_, bb):
             t = B_.blocks[bb]['t']
@@ -521,7 +521,7 @@ def run(ctx):
             if any(n.endswith('AsyncWriteExt::flush') for n in callee_names(t)):
                 return [('flush', bb)]
             return []
-        raw_seqs, _ = success_sequences(B, ev_raw)
+        raw_seqs, _ = correlated_sequences(B, ev_raw)
         seq_events = {}
         for rs in raw_seqs:
             key = tuple(x for bb_ in [e[1] for e in rs] for x in ev(B, bb_))
